@@ -640,14 +640,21 @@ func (m *machine) finalize(t *rapid.T) {
 	si := rapid.IntRange(0, len(states)-1).Draw(t, "finState")
 	ii := rapid.IntRange(-1, len(ios)-1).Draw(t, "finIO")
 	ioFirst := rapid.Bool().Draw(t, "ioFirst")
+	// While finding SigCross is excluded, an IO candidate holding a key/value pair of the chosen state root is not
+	// finalized with it on badger (the IO candidates of the version are then discarded). This is decided first: the
+	// analyses below depend on which candidates end up discarded.
+	avoidCross := m.has("badger") && ev.Excluded(SigCross)
 	pick := func(si, ii int) []*cand {
 		fin := []*cand{states[si]}
-		if ii >= 0 {
+		if ii >= 0 && !(avoidCross && sharesPair(ios[ii], states[si])) {
 			fin = append(fin, ios[ii])
 		}
 		return fin
 	}
 	fin := pick(si, ii)
+	if ii >= 0 && len(fin) == 1 {
+		m.rec.Discard("excluded:" + SigCross)
+	}
 	for ri, r := range m.reps {
 		if r.backend != "badger" {
 			continue
@@ -720,26 +727,19 @@ func (m *machine) finalize(t *rapid.T) {
 			}
 			if len(others) > 0 {
 				fin2 := append([]*cand{f1, others[rapid.IntRange(0, len(others)-1).Draw(t, "sibling2")]}, fin[1:]...)
-				if sm, cr := sharedDanger(vr, fin2, 0); !sm && !cr {
+				if avoidCross && crossPair(fin2) {
+					fin2 = fin2[:2] // (the IO root holds a pair of the second sibling)
+				}
+				sm, cr := sharedDanger(vr, fin2, 0)
+				m.log("two siblings %v: discarded candidate put a node they hold: same type %v, other type %v", names(fin2), sm, cr)
+				if !sm && !cr {
 					fin, two = fin2, true
 				}
 			}
 		}
 	}
 	if m.has("badger") && crossPair(fin) {
-		if ev.Excluded(SigCross) {
-			// finalize without the IO root (its candidates are discarded)
-			m.rec.Discard("excluded:" + SigCross)
-			var keep []*cand
-			for _, f := range fin {
-				if f.Root.Type != node.RootTypeIO {
-					keep = append(keep, f)
-				}
-			}
-			fin = keep
-		} else {
-			m.crossPre = true
-		}
+		m.crossPre = true
 	}
 	roots := make([]node.Root, 0, 3)
 	for _, f := range fin {
